@@ -413,7 +413,8 @@ def _dtworker(ys):
         return (r.get("d.ymd.y"), r.get("d.ymd.m"), r.get("d.ymd.d"), h, m, s)
     for y in ys:
         for (mo, dy) in ((1, 1), (1, 31), (2, 28), (3, 1), (6, 30), (12, 1), (12, 31)):
-            for (h, m, s) in ((0, 0, 0), (0, 0, 1), (12, 0, 0), (23, 59, 59)):
+            # each field of the time alone away from midnight, among them
+            for (h, m, s) in ((0, 0, 0), (0, 0, 1), (0, 5, 0), (1, 0, 0), (12, 0, 0), (23, 59, 59)):
                 d = datetime.datetime(y, mo, dy, h, m, s)
                 dt = {"typ": E["DT_YMD"], "sandwich": 1, "d.typ": E["DT_YMD"], "d.ymd.y": y, "d.ymd.m": mo, "d.ymd.d": dy,
                       "t.typ": E["DT_HMS"], "t.hms.h": h, "t.hms.m": m, "t.hms.s": s, "t.hms.ns": 0}
